@@ -150,4 +150,14 @@ def midPoint (b : Box) : List Rat :=
     | .mk _ (.fin c) => c
     | _ => 0
 
+/-- the box `e` with the parameters (coordinates outside `vars`) fixed to those of the rational point `w` -/
+def slice (e : Box) (vars : List Nat) (w : List Rat) : Box :=
+  e.zipIdx.map fun (q : Itv × Nat) =>
+    if vars.contains q.2 then q.1 else match w[q.2]? with | some t => Itv.point t | none => q.1
+
+/-- REFUTATION 3: for the parameter value of `w` (inside the existence box) the existence box contains no zero:
+    interval exclusion on a verified subdivision of the slice -/
+def refutedSlice (eqs : List (List Dag × Dag)) (e : Box) (vars : List Nat) (w : List Rat) (depth : Nat) : Bool :=
+  ratParamsIn vars w e && noZero eqs depth (slice e vars w)
+
 end Ibex.Verdict
